@@ -13,6 +13,7 @@ import Sgz.Model.Reblock
 import Sgz.Model.Irregular
 import Sgz.Model.Export
 import Sgz.Model.Window
+import Sgz.Model.Container
 /-!
 Line-protocol driver over the executable model (`Sgz/Model`, Mathlib-free).  One request per line, one answer per
 line.  The Python harness sends the same request to the real implementation and diffs canonical answers.
@@ -390,6 +391,19 @@ def handleWindow (ws : List String) : String :=
     s!"{" ".intercalate slots} | {Window.firstTrace n1 w} {Window.lastTrace n1 w}"
   | _ => "bad-op"
 
+/-- `container <geo> Q VERSION NHB LEN NARRAYS`: disk blocks, the offset a reader of that version derives for every
+array, and the length a writer's output has -/
+def handleContainer (ws : List String) : String :=
+  match ints (ws.take 7), (ws.drop 7).mapM String.toNat? with
+  | some gs, some [q, ver, nhb, len, na] =>
+    match mkGeo gs with
+    | some g =>
+      let d := Container.diskBlocks g q
+      let offs := (List.range na).map fun k => Container.readerFooterOffset ver nhb d len k
+      s!"{d} | {joinNat offs} | {Container.fileLength nhb d len na}"
+    | none => "bad-op"
+  | _, _ => "bad-op"
+
 def handle (line : String) : String :=
   if line.startsWith "hist " then handleHist (line.drop 5).toString else
   if line.startsWith "hwtable " then handleHwTable (line.drop 8).toString else
@@ -407,6 +421,7 @@ def handle (line : String) : String :=
   | "irr" :: rest => handleIrr rest
   | "export" :: rest => handleExport rest
   | "window" :: rest => handleWindow rest
+  | "container" :: rest => handleContainer rest
   | "hashfeed" :: rest => handleHashFeed rest
   | ["ping"] => "pong"
   | _ => "bad-op"
